@@ -716,6 +716,7 @@ func runC13Memory(ctx *core.Ctx) *core.Violation {
 	nextSample := L / 8
 	var atHalf, last int
 	var samples []int
+	var caps []int // capacity of the current buffer at each sample
 	var heapHalf uint64
 	for m.pos < L {
 		k := 1 + ops.Draw(maxTok)
@@ -786,6 +787,11 @@ func runC13Memory(ctx *core.Ctx) *core.Violation {
 				ctx.C["max_held_permille_of_bound"] = int64(h) * 1000 / int64(bound)
 			}
 			samples = append(samples, h)
+			curCap := m.rv.FieldByName("buf").Cap()
+			caps = append(caps, curCap)
+			if capBound := 32*(size+(lag+1)*maxTok+maxLA) + 1024; curCap > capBound {
+				return m.viol("memory-unbounded", "the current buffer alone has capacity %d after %d of %d stream bytes; bound 32*(size %d + %d tokens of %d + lookahead %d)+1024 = %d", curCap, m.pos, L, size, lag+1, maxTok, maxLA, capBound)
+			}
 			if lagKind == 0 && h > bound {
 				return m.viol("memory-unbounded", "lexer holds %d bytes after %d of %d stream bytes with every token freed; bound 32*(size %d + token %d + lookahead %d)+1024 = %d", h, m.pos, L, size, maxTok, maxLA, bound)
 			}
@@ -813,7 +819,17 @@ func runC13Memory(ctx *core.Ctx) *core.Violation {
 	// the second half of the stream must not add to it. A leak grows linearly: end ~ 2 x half.
 	if len(samples) >= 8 {
 		half, end := samples[3], samples[len(samples)-1]
-		if end > half+half/2+512 {
+		// a leak accumulates blocks: the held bytes grow both absolutely and relative to the
+		// size of the current buffer. A late, one-off enlargement of the buffer itself (a
+		// legitimate growth step, of whatever factor) scales both and is not a leak.
+		capHalf, capEnd := caps[3], caps[len(caps)-1]
+		if capHalf < 1 {
+			capHalf = 1
+		}
+		if capEnd < 1 {
+			capEnd = 1
+		}
+		if end > half+half/2+512 && end/capEnd > (half/capHalf)*3/2+4 {
 			return m.viol("memory-grows-with-stream", "lexer holds %d bytes at the end of a %d-byte stream but held %d at the half (samples at each eighth: %v) although every token was freed (discipline %d, lag %d)", end, L, half, samples, lagKind, lag)
 		}
 	}
